@@ -227,6 +227,7 @@ def run(eng, rep):
     rep.explain("C15: on util.dykstra's CFG -- counting data-flow for the sweep counter (T3), reaching definitions of the returned variable (T4), "
                 "shape and placement of the stopping accumulator, and symbolic execution of one inner iteration over affine normal forms (T7) showing that "
                 "each sub-step moves x by exactly the change of its correction vector (the two premises of the sqrt(p*tol) feasibility bound).")
+    rep.explain("Also decided: tol and max_iter are never re-assigned, so the loop tests the caller's values (C15-3b); pbox is an exact two-sided clamp of its own parameters (C15-2b).")
     rep.not_decided += ["distance to each set / 1e-3 optimality / 'unchanged up to rounding' (numerical)"]
     rule_sweep_bound(eng, rep)
     rule_result_is_last_projector(eng, rep)
